@@ -186,6 +186,7 @@ class ForcedRun(drv.Run):
         self.steps = steps            # list of (act, s, t)
         self.ctl = Controller(self.H)
         self.H.ctl = self.ctl
+        self.H.small_waker = False    # the simulation constants make every waker send succeed
         self.divergence = None
         self.allow_cb_close = False
         self.finishing = False
@@ -223,6 +224,7 @@ class ForcedRun(drv.Run):
             H.pending_hs = []
             loop.call_soon(self._next_step)
             loop.run_forever()
+            self._await_selector()
             loop.run_until_complete(loop.shutdown_asyncgens())
         except drv.Hang as e:
             H.hung = True
